@@ -112,7 +112,10 @@ func (n *BitcoinNode) handleVersion(ctx context.Context, header *wire.MessageHea
 	// 	return errors.Wrapf(ErrNotFullService, "0x%016x", uint64(msg.Services))
 	// }
 
-	n.handshakeChannel <- msg // trigger handshake action
+	select {
+	case n.handshakeChannel <- msg: // trigger handshake action
+	default: // handshake is no longer listening
+	}
 	return nil
 }
 
@@ -124,7 +127,10 @@ func (n *BitcoinNode) handleVerack(ctx context.Context, header *wire.MessageHead
 		return errors.Wrap(err, "read message")
 	}
 
-	n.handshakeChannel <- msg // trigger handshake action
+	select {
+	case n.handshakeChannel <- msg: // trigger handshake action
+	default: // handshake is no longer listening
+	}
 	return nil
 }
 
